@@ -60,7 +60,10 @@ func (c *Case) record(i int, op *Op, obs []string) {
 
 // replayOps re-executes a fixed op list on the real library (used by the shrinker and --replay).
 func replayOps(dir string, ops []*Op, hook func(e *Env, i int, op *Op, obs []string)) *Case {
-	e := &Env{dir: dir, faultCtl: anyFault(ops)}
+	return replayOpsOn(&Env{dir: dir, faultCtl: anyFault(ops)}, ops, hook)
+}
+
+func replayOpsOn(e *Env, ops []*Op, hook func(e *Env, i int, op *Op, obs []string)) *Case {
 	defer e.Close()
 	c := &Case{}
 	for i, op := range ops {
